@@ -31,7 +31,7 @@ RULE = ("classes with n fields + @serialized/@resolver methods (n <= 4 exhaustiv
 ASSUMPTIONS = [
     "relative order of several elements attached on the same side of the same target is not fixed by the statement: only required to be the same in all views",
     "an element whose after/before chain reaches an element absent from a view (method seen from a deserialization view, skipped field) must be present; its position is unspecified there",
-    "relative declaration order of serialized methods defined in different classes of an inheritance chain is unspecified (abstained, counted)",
+    "serialized methods of a base class count as declared before those of its subclasses (as dataclass fields are)",
     "GraphQL object types show methods registered with @resolver; each method is registered both with @serialized and @resolver with the same order "
     "(form resolver-serialized: once, with @resolver(order=.., serialized=True))",
     "ill-formed specs (cycles, self reference, unknown targets) are outside the quantifier",
@@ -129,7 +129,10 @@ def as_inheritance(eff, fields, methods, j, variant, methods_in_base=False):
     """fields[:j] in the base class, the rest in the sub class"""
     names = fields + methods
     bf, sf = fields[:j], fields[j:]
-    bm, sm = (methods, []) if methods_in_base else ([], methods)
+    if isinstance(methods_in_base, bool):
+        bm, sm = (methods, []) if methods_in_base else ([], methods)
+    else:  # number of methods declared in the base class, the others in the sub class
+        bm, sm = methods[:methods_in_base], methods[methods_in_base:]
     meta = dict(eff)
     base_co = sub_co = None
     form = "inheritance"
@@ -368,7 +371,7 @@ def gen_exhaustive(tier_quick, seed, sizes=(1, 2, 3, 4)):
                     for j in js:
                         variants = ("plain", "override", "base-mapping") if small or not tier_quick else (("plain", "override", "base-mapping")[idx % 3],)
                         for variant in variants:
-                            yield as_inheritance(eff, fields, methods, j, variant, methods_in_base=(idx % 2 == 0 and variant == "plain")), True, "D"
+                            yield as_inheritance(eff, fields, methods, j, variant, methods_in_base=((1 if len(methods) >= 2 and idx % 3 == 1 else idx % 2 == 0) if variant == "plain" else (1 if len(methods) >= 2 and idx % 2 else False))), True, "D"
             # form C: class-level sequence over an ordered subset, free elements range over every option
             for size in range(2, n + 1):
                 for seq in itertools.permutations(names, size):
@@ -400,7 +403,7 @@ def gen_variants(rng, n_programs, sizes=(2, 3, 4)):
         elif form == "Bp" and any(s is not None for s in eff.values()):
             p = as_mapping(eff, fields, methods, partial=rng.choice([e for e in names if eff[e] is not None]))
         elif form == "D" and k >= 2:
-            p = as_inheritance(eff, fields, methods, rng.randint(1, k - 1), rng.choice(["plain", "override", "base-mapping"]), methods_in_base=rng.random() < 0.3)
+            p = as_inheritance(eff, fields, methods, rng.randint(1, k - 1), rng.choice(["plain", "override", "base-mapping"]), methods_in_base=(rng.randint(1, len(methods) - 1) if len(methods) >= 2 and rng.random() < 0.4 else rng.random() < 0.3))
         elif form == "C":
             seq = rng.sample(names, rng.randint(2, n))
             p = base_prog(fields, methods, eff, "class-sequence")
